@@ -1,6 +1,8 @@
 package main
 
 import (
+	"fmt"
+	"os"
 	"go/token"
 	"go/types"
 
@@ -99,8 +101,14 @@ func (ix *idxEngine) heapLoopFacts(p *prover, v ssa.Value, t string, at ssa.Inst
 			}
 			if p.mayWrite(in, memLoc{kind: "field", field: f}, f.Type(), nil) {
 				bad = true
+				if os.Getenv("TABDBG") != "" {
+					fmt.Fprintf(os.Stderr, "heaploop %s: %s may write %s\n", p.fn.Name(), in, f.Name())
+				}
 			}
 		}
+	}
+	if os.Getenv("TABDBG") != "" {
+		fmt.Fprintf(os.Stderr, "heaploop %s: N=%s bad=%v stores=%d\n", p.fn.Name(), N.String(), bad, len(stores))
 	}
 	if bad || len(stores) == 0 {
 		return nil
@@ -123,7 +131,12 @@ func (ix *idxEngine) heapLoopFacts(p *prover, v ssa.Value, t string, at ssa.Inst
 		if !ok {
 			return nil
 		}
-		if ok, _ := p.prove(inv(el), last, nil, 1); !ok {
+		// the loop may be entered straight from a test (if n <= t.count { return }; for ...): what that edge says holds too
+		var edge []constraint
+		if pi, isIf := last.(*ssa.If); isIf && pred.Succs[0] != pred.Succs[1] {
+			edge = p.condConstraints(pi.Cond, pred.Succs[0] == H)
+		}
+		if ok, _ := p.prove(inv(el), last, edge, 1); !ok {
 			return nil
 		}
 	}
